@@ -270,6 +270,26 @@ ProfLB ==
     quants |-> {<<0, 1, TRUE>>, <<0, -1, TRUE>>, <<2, 2, TRUE>>, <<1, 2, FALSE>>}, looks |-> FALSE, lookbs |-> TRUE, lbany |-> TRUE,
     atomics |-> FALSE, groups |-> TRUE, brefs |-> FALSE, bexs |-> TRUE, conds |-> TRUE, unrestricted |-> FALSE]
 
+\* hand-written shapes of the unrestricted grammar: self/forward references, loops around look-arounds that capture,
+\* \K / \G in odd places, references into look-behinds
+WildShapes == <<
+   Plus(Grp(1, Cat(<<Bref(1), La>>))),                                                     \* (\1a)+
+   Plus(Cat(<<Look(Grp(1, Cat(<<Opt(Bref(1)), La>>))), La, La, La>>)),                      \* (?:(?=(\1?a))aaa)+
+   Star(Grp(1, Cat(<<La, Opt(Bref(1))>>))),                                                \* (a\1?)*
+   Plus(Alt(<<Grp(1, La), Cat(<<Bref(1), Lb>>)>>)),                                         \* (?:(a)|\1b)+
+   Cat(<<LookB(Cat(<<Keep, La>>)), Lb>>),                                                   \* (?<=\Ka)b
+   Alt(<<La, Cat(<<LookB(Cat(<<Keep, La>>)), Lb>>)>>),                                      \* a|(?<=\Ka)b
+   Plus(Grp(1, Cat(<<LE, Opt(Bref(1))>>))),                                                \* (E\1?)+   multi-byte
+   Cat(<<Star(Grp(1, Alt(<<Cat(<<Bref(1), LE>>), La>>))), Lb>>),                            \* (\1E|a)*b
+   Cat(<<Cont, Star(La)>>), Cat(<<Star(La), Cont>>), Plus(Cat(<<Cont, La>>)),                 \* \Ga* a*\G (?:\Ga)+
+   Cat(<<Plus(Grp(1, Cat(<<Look(Cat(<<Bref(1), Lb>>)), AnyC>>))), Keep>>),                  \* ((?=\1b).)+\K
+   Cat(<<Grp(1, Opt(La)), Plus(Cat(<<Look(Grp(2, Cat(<<Bref(1), Bref(2)>>))), AnyC>>))>>),   \* (a?)(?:(?=(\1\2)).)+
+   Rep(Grp(1, Cat(<<Opt(Bref(1)), LE, Keep>>)), 2, 3, TRUE),                                \* (\1?E\K){2,3}
+   Cat(<<Star(Cat(<<Look(Grp(1, Star(AnyC))), AnyC>>)), Bref(1)>>),                          \* (?:(?=(.*)).)*\1
+   Cat(<<Grp(1, Star(AnyC)), LookB(Cat(<<Bref(1)>>))>>)                                      \* (.*)(?<=\1)  (not constant: rejected)
+>>
+WildShapePats == { [ast |-> WildShapes[j], ng |-> Opened(WildShapes[j])] : j \in 1..Len(WildShapes) }
+
 Prof(name) == CASE name = "core" -> ProfCore [] name = "lb" -> ProfLB [] name = "case" -> ProfCase [] name = "iter" -> ProfIter [] name = "cond" -> ProfCond
                 [] name = "wild" -> ProfWild [] name = "plain" -> ProfPlain
 =============================================================================
